@@ -198,6 +198,8 @@ def gen_histories(chk, B, E):
 
 CF_DRAIN = [(False, 10, 0, False, False), (True, 10, 0, False, False), (False, 0, 4, False, False)]
 CF_DRAIN_EV = [(False, 10, 0, True, True), (True, 10, 0, True, False), (False, 0, 4, True, True)]
+CF_AUTO = [(False, 10, 0, False, False, False, None, True), (True, 0, 0, False, False, False, None, True),
+           (False, 0, 4, True, True, False, None, True)]
 CF_NOLOG = [(False, 10, 0, True, False, True), (True, 0, 0, True, False, True), (False, 0, 4, True, True, True)]
 
 
@@ -212,7 +214,9 @@ def gen_drain(chk, B, E):
                 # PROCESS_LOG / PROCESS_COMMUNICATION events for bytes flushed at reap (header: name, pid, channel)
                 (CF_DRAIN_EV, 0, 'stdout', 'stdout'), (CF_DRAIN_EV, 2, 'stderr', 'stderr'), (CF_EV, 1, 'stderr', 'stdout'),
                 # no log file at all: events only
-                (CF_NOLOG, 0, 'stdout', 'stdout')]
+                (CF_NOLOG, 0, 'stdout', 'stdout'),
+                # stdout_logfile = stderr_logfile = AUTO (named by create_autochildlogs)
+                (CF_AUTO, 0, 'stdout', 'stdout'), (CF_AUTO, 2, 'stderr', 'stderr')]
     jobs = []
     for s in streams:
         for cfgs, p, wch, rch in variants:
